@@ -34,9 +34,12 @@ WhyConcat(e) ==
   ELSE IF e.tab # Translate(e.a \o e.bs) THEN "translate-genetic-code"
   ELSE "ok"
 
-\* any length, including 0, 1 and 2; bases outside aAcCgGtT are outside the statement
+\* any length, including 0, 1 and 2.  The statement defines frame i as Translate of a piece of the sequence: it is judged
+\* whenever all three pieces are over aAcCgGtT (a foreign byte that falls outside every piece - e.g. the sequence "N" - must
+\* not make the function panic: the pieces are empty)
+FramePiece(seq, f) == Trunc3(Drop(seq, Least(f - 1, Len(seq))))
 WhyFrames(e) ==
-  IF ~Over(e.seq, Nucs) THEN "ok"
+  IF \E f \in 1..3 : ~Over(FramePiece(e.seq, f), Nucs) THEN "ok"
   ELSE IF e.panic THEN "frames-panic"
   ELSE IF Len(e.out) # 3 THEN "frames-shape"
   ELSE IF e.out # Frames(e.seq) THEN "frames-result"
